@@ -119,6 +119,7 @@ var graphOps = []graphOp{
 	}},
 	{"==", func(th *starlark.Thread, a, b starlark.Value) error { _, err := starlark.Compare(syntax.EQL, a, b); return err }},
 	{"==self", func(th *starlark.Thread, a, b starlark.Value) error { _, err := starlark.Compare(syntax.EQL, a, a); return err }},
+	{"==twin", func(th *starlark.Thread, a, b starlark.Value) error { _, err := starlark.Compare(syntax.EQL, a, b); return err }},
 	{"<", func(th *starlark.Thread, a, b starlark.Value) error { _, err := starlark.Compare(syntax.LT, a, b); return err }},
 	{"hash", func(th *starlark.Thread, a, b starlark.Value) error { _, err := a.Hash(); return err }},
 	{"hash-builtin", func(th *starlark.Thread, a, b starlark.Value) error {
@@ -155,6 +156,8 @@ var graphOps = []graphOp{
 	}},
 }
 
+var nonPrintingOps = []string{"==", "==self", "==twin", "<", "hash", "hash-builtin", "json.encode", "sorted", "in", "dictkey", "setinsert", "freeze", "call"}
+
 func graphEnv() starlark.StringDict {
 	return starlark.StringDict{"struct": starlark.NewBuiltin("struct", starlarkstruct.Make), "json": sjson.Module}
 }
@@ -166,6 +169,13 @@ func armGraphs(c *driver.Ctx) {
 			continue
 		}
 		r := c.Rand()
+		if i%2 == 1 {
+			// cycles through structs are allowed here; the printing operations are left out for them
+			// (the struct printer's missing cycle detection is a recorded finding with its own case)
+			src, kinds := genGraph(r, true)
+			runGraphOps(c, "graph-struct-cycles", src, kinds, nonPrintingOps)
+			continue
+		}
 		src, kinds := genGraph(r, false)
 		runGraph(c, "graph", src, kinds, true)
 		if leaked.Load() >= 3 {
@@ -217,7 +227,7 @@ func runGraph(c *driver.Ctx, site, src string, kinds []string, all bool) {
 }
 
 func runGraphOps(c *driver.Ctx, site, src string, kinds []string, opNames []string) {
-	var nodes []starlark.Value
+	var nodes, twins []starlark.Value
 	c.Note("key=C02 crash %s build\n%s", site, src)
 	res := guarded(20*time.Second, func(th *starlark.Thread) error {
 		// build() is called from Go so that the nodes are NOT frozen by module completion
@@ -232,6 +242,15 @@ func runGraphOps(c *driver.Ctx, site, src string, kinds []string, opNames []stri
 		l := v.(*starlark.List)
 		for i := 0; i < l.Len(); i++ {
 			nodes = append(nodes, l.Index(i))
+		}
+		// a second, separately built copy of the same graph (equal structure, distinct objects)
+		v2, err := starlark.Call(th, g["build"], nil, nil)
+		if err != nil {
+			return err
+		}
+		l2 := v2.(*starlark.List)
+		for i := 0; i < l2.Len(); i++ {
+			twins = append(twins, l2.Index(i))
 		}
 		return nil
 	})
@@ -256,6 +275,9 @@ func runGraphOps(c *driver.Ctx, site, src string, kinds []string, opNames []stri
 		}
 		for i, a := range nodes {
 			b := nodes[(i+1)%len(nodes)]
+			if op.name == "==twin" {
+				b = twins[i]
+			}
 			c.Note("key=C02 fatal %s %s\nnode %d (%s) of:\n%s", site, op.name, i, kinds[i], src)
 			res := guarded(20*time.Second, func(th *starlark.Thread) error { return op.run(th, a, b) })
 			c.Eval(1)
